@@ -16,7 +16,7 @@ else
   head -30 "$dir/demo_test.go" | grep -q "^package expr" && pkg=./expr
   put() { cp "$dir/demo_test.go" "$wt/$pkg/zz_demo_test.go"; }
   unput() { rm -f "$wt/$pkg/zz_demo_test.go"; }
-  run() { ( cd "$wt" && timeout 900 go test -vet=off -count=1 -run 'Test.*Demo|TestDemo|TestC16Demo' "$@" $pkg >/tmp/confirm_out.txt 2>&1 ); }
+  run() { ( cd "$wt" && timeout 900 go test -vet=off -count=1 -run 'Test.*Demo|TestMut' "$@" $pkg >/tmp/confirm_out.txt 2>&1 ); }
 fi
 put
 run "$@"; a=$?
